@@ -59,6 +59,21 @@ def gen_plan(seed, tier):
     ks = list(range(0, N))
     plan['ks'] = ks if full else sorted(rng.sample(ks, max(1, len(ks) // 3)))
     plan['paths'] = ['save', 'dill', 'deepcopy', 'periodic', 'torn']
+    # reconfiguration during the run (applied at the same step in every execution)
+    mid = []
+    if rng.random() < 0.45:
+        for _ in range(rng.choice([1, 1, 2])):
+            what = rng.choice(['evalmon', 'evalmon', 'penalty', 'limits', 'stepmon'])
+            at = rng.randint(1, N - 1)
+            if what == 'evalmon': op = {'op': 'set', 'what': 'evalmon', 'arg': {'kind': 'Monitor', 'new': rng.random() < 0.5}}
+            elif what == 'penalty': op = {'op': 'set', 'what': 'penalty', 'arg': gen.gen_penalty(rng, plan['dim'])}
+            elif what == 'limits': op = {'op': 'set', 'what': 'limits', 'arg': [rng.choice([None, 500]), rng.choice([None, 100000]), rng.random() < 0.5]}
+            else: op = {'op': 'set', 'what': 'stepmon', 'arg': {'kind': 'Monitor'}}
+            mid.append([at, op])
+    plan['midrun'] = sorted(mid, key=lambda m: m[0])
+    for o in plan['ops']:
+        if o['op'] == 'set' and o['what'] == 'evalmon' and rng.random() < 0.3:
+            o['arg'] = dict(o['arg'], prefill=rng.randint(1, 4))
     plan['crash_frac'] = 1.0 if full else 0.34
     plan['crash_seed'] = rng.randrange(1 << 30)
     return plan
@@ -92,10 +107,17 @@ class Exec(object):
         self.h.build()
         for op in plan['ops']:
             self.h.do(op)
-    def step(self, solver=None, owner=None):
+    def step(self, solver=None, owner=None, j=None):
         h = self.h
         self.run.owner = owner or self.tag
         s = solver or h.solver
+        if j is not None:
+            for (at, op) in self.plan.get('midrun', []):
+                if at == j:
+                    saved = (h.solvers, h.cur)
+                    h.solvers = {'x': s}; h.cur = 'x'
+                    try: h.do(op)
+                    finally: h.solvers, h.cur = saved
         cost = None
         if not h.passed_cost and solver is None:
             cost = h.cost; h.passed_cost = True
@@ -151,7 +173,7 @@ def continue_and_compare(plan, run, ex, solver, k, ref_snaps, ref_rng, violate, 
     ev0 = solver.evaluations
     for j in range(k + 1, N):
         try:
-            ex.step(solver, owner=tag)
+            ex.step(solver, owner=tag, j=j)
         except (env.SimCrash, env.SimHang):
             raise
         except Exception as e:
@@ -177,7 +199,7 @@ def _run(plan, run, violate, stats):
     ref = Exec(run, plan, 'ref')
     ref_snaps = []; ref_rng = []; blobs = {}; copies = {}
     for k in range(N):
-        ref.step()
+        ref.step(j=k)
         ref_snaps.append(ref.h.snap())
         ref_rng.append(rng_state())
         if k in plan['ks']:
@@ -214,7 +236,7 @@ def _run(plan, run, violate, stats):
     if 'save' in plan['paths']:
         for k in plan['ks']:
             ex = Exec(run, plan, 'save%d' % k)
-            for j in range(k + 1): ex.step()
+            for j in range(k + 1): ex.step(j=j)
             path = fs.path('manual.pkl')
             try:
                 ex.h.solver.SaveSolver(path)
@@ -234,7 +256,7 @@ def _run(plan, run, violate, stats):
             # original untouched by the restored one
             if k < N - 1:
                 set_rng_state(ref_rng[k])
-                ex.step(orig)
+                ex.step(orig, j=k + 1)
                 compare(ref_snaps, k + 1, ex.h.snap(orig), violate, 'save', 'original after the restored copy ran')
 
     # ---------------- periodic dump + crash at an enumerated seam crossing
@@ -249,7 +271,7 @@ def _run(plan, run, violate, stats):
         marks = []          # (kind, n_relative) of every crossing inside the stepping phase
         seen = dict(run.counts)
         for j in range(N):
-            dry.step()
+            dry.step(j=j)
             for kind in ('cost', 'fs.open', 'fs.write', 'fs.close'):
                 for n in range(seen.get(kind, 0) + 1, run.counts.get(kind, 0) + 1):
                     marks.append((kind, n - base.get(kind, 0), j))
@@ -272,7 +294,7 @@ def _run(plan, run, violate, stats):
                 fault = {'kind': 'crash', 'at': '%s#%d' % (kind, nrel)}
                 if kind != 'cost': fault['torn'] = crng.choice([None, 0.0, 0.3, 0.9])
                 run.faults = {(kind, b.get(kind, 0) + nrel): fault}
-                for jj in range(N): ex.step()
+                for jj in range(N): ex.step(j=jj)
                 run.faults = {}
                 continue       # crash point not reached (different crossing numbering): nothing to check
             except env.SimCrash:
@@ -296,12 +318,21 @@ def _run(plan, run, violate, stats):
                 continue
             g = s2.generations
             ptag = 'torn' if kind != 'cost' else 'periodic'
-            k = len(s2._stepmon) - 1 if plan['solver'] != 'Powell' else g
-            if k < 0 or k >= N:
-                violate('torn_checkpoint_loaded_as_different_state', 'loaded a solver at generation %r of a %d-step run' % (g, N), path=ptag)
+            # which boundary does the dump hold?  the evaluation counter is strictly increasing over steps
+            ks_ = [i for i in range(N) if ref_snaps[i]['evaluations'] == s2.evaluations]
+            if not ks_:
+                violate('torn_checkpoint_loaded_as_different_state', 'crash at %s#%d: loaded a solver with %d evaluations / generation '
+                        '%r, a state the uninterrupted run never was in at a step boundary' % (kind, nrel, s2.evaluations, g), path=ptag)
                 continue
-            ok = compare(ref_snaps, k, ex.h.snap(s2), violate, ptag, 'dump loaded after crash at %s#%d' % (kind, nrel),
-                         save_every=every)
+            snap2 = strip(ex.h.snap(s2))
+            exact = [i for i in ks_ if first_diff(strip(ref_snaps[i]), snap2) is None]
+            sameg = [i for i in ks_ if ref_snaps[i]['generations'] == g]
+            k = (exact or sameg or ks_)[0]      # (a generation without evaluations repeats the counter)
+            if any(at == k + 1 for (at, _) in plan.get('midrun', [])):
+                ok = True      # the dump may have been taken by the reconfiguration itself (Finalize): only the continuation is comparable
+            else:
+                ok = compare(ref_snaps, k, ex.h.snap(s2), violate, ptag, 'dump loaded after crash at %s#%d' % (kind, nrel),
+                             save_every=every)
             if ok:
                 continue_and_compare(plan, run, ex, s2, k, ref_snaps, ref_rng, violate, stats, ptag, save_every=every)
 
@@ -319,7 +350,10 @@ def simplify(plan):
         for k in plan['ks']:
             p = dict(plan); p['ks'] = [k]
             yield p
-    if plan['N'] > 2:
+    for i in range(len(plan.get('midrun', []))):
+        p = dict(plan); p['midrun'] = plan['midrun'][:i] + plan['midrun'][i + 1:]
+        yield p
+    if plan['N'] > 2 and not plan.get('midrun'):
         p = dict(plan); p['N'] = plan['N'] - 1; p['ks'] = [k for k in plan['ks'] if k < p['N']] or [0]
         yield p
     if plan['crash_frac'] > 0.05:
